@@ -157,10 +157,33 @@ func init() {
 			stuck = true
 		}
 		if !stuck {
-			waitSettled(s)
+			/* never waits for the mutex itself: a goroutine that went away with it must show as
+			   a stuck interface, not hang the harness */
+			deadline := time.Now().Add(10 * time.Second)
+			for {
+				if settled, _, free := s.VerifTrySettledHookHeld(); free && settled {
+					break
+				}
+				if time.Now().After(deadline) {
+					if _, _, free := s.VerifTrySettledHookHeld(); !free {
+						stuck = true
+					}
+					break
+				}
+				time.Sleep(2 * time.Millisecond)
+			}
 		}
 		close(stop)
-		pollers.Wait()
+		if !stuck {
+			/* behind a mutex that is never released the pollers wait for ever too */
+			pollersDone := make(chan struct{})
+			go func() { pollers.Wait(); close(pollersDone) }()
+			select {
+			case <-pollersDone:
+			case <-time.After(10 * time.Second):
+				stuck = true
+			}
+		}
 		sm.takeLog()
 		return map[string]any{"overlaps": atomic.LoadInt64(&overlaps), "stuck": stuck, "badheights": atomic.LoadInt64(&badHeights), "frames_emitted": atomic.LoadInt64(&frames) > 0}
 	}
